@@ -253,6 +253,12 @@ func probesFor(p PatSpec) []OriginSpec {
 	hosts := []string{p.Host}
 	if !p.IP6 {
 		h := p.Host
+		if p.Subs { // subdomain labels of every shape: longest, digit-first, consecutive digit-first, single byte
+			l63 := strings.Repeat("a", 63)
+			d32 := "0123456789abcdef0123456789abcdef"
+			hosts = append(hosts, l63+"."+h, "9"+l63[1:]+"."+h, d32+"."+d32+"."+h, "a1b2c3d4e5f6a7b8c9d0e1f2a3b4c5d6."+d32+"."+h,
+				"0."+h, "9z."+h, "x1.0y.2z."+h, "1.2.3."+h, l63+"."+l63+"."+h)
+		}
 		hosts = append(hosts,
 			"a"+h,        // extended on the left without a dot
 			"a."+h,       // one label deeper
@@ -369,4 +375,42 @@ func wellFormedNumericHost(h string) bool {
 		}
 	}
 	return true
+}
+
+// patSpecFromString parses the rendering of a PatSpec back (replays of patterns generated on the fly).
+func patSpecFromString(s string) (PatSpec, bool) {
+	i := strings.Index(s, "://")
+	if i <= 0 {
+		return PatSpec{}, false
+	}
+	sp := PatSpec{Scheme: s[:i]}
+	rest := s[i+3:]
+	if strings.HasPrefix(rest, "*.") {
+		sp.Subs = true
+		rest = rest[2:]
+	}
+	host, port := rest, ""
+	if strings.HasPrefix(rest, "[") {
+		end := strings.IndexByte(rest, ']')
+		if end < 0 {
+			return PatSpec{}, false
+		}
+		sp.IP6 = true
+		host, port = rest[1:end], strings.TrimPrefix(rest[end+1:], ":")
+	} else if j := strings.IndexByte(rest, ':'); j >= 0 {
+		host, port = rest[:j], rest[j+1:]
+	}
+	sp.Host = host
+	switch port {
+	case "":
+	case "*":
+		sp.Port = portAny
+	default:
+		n, err := strconv.Atoi(port)
+		if err != nil {
+			return PatSpec{}, false
+		}
+		sp.Port = n
+	}
+	return sp, true
 }
